@@ -7,28 +7,8 @@ from .codecprops import *
 from . import deriveprobes as dp
 
 
-def check(v):
-    run_codec_property(v, "C05", ["ser", "full", "eps:0", "dty"], oracle_c05,
-                       rule_extra="Derived definitions: named/tuple/unit structs, unit/tuple/struct variants, type / const / defaulted parameters, phantom parameters, inline bounds, where-clauses, zero_copy / deep_copy / no attribute, repr(C) with and without align.")
-    if v.violations:
-        return
-    c = campaign(v.tier)
-    adts = [c.U.defs[k] for k in c.U.order if not getattr(c.U.defs[k], "liar", False)]
-    v.coverage["definitions_by_shape"] = {
-        "struct:named": sum(1 for d in adts if d.kind == "struct" and d.style == "named"),
-        "struct:tuple": sum(1 for d in adts if d.kind == "struct" and d.style == "tuple"),
-        "struct:unit": sum(1 for d in adts if d.kind == "struct" and d.style == "unit"),
-        "enum": sum(1 for d in adts if d.kind == "enum"),
-        "with_type_params": sum(1 for d in adts if d.tparams),
-        "with_const_params": sum(1 for d in adts if d.cparams),
-        "with_defaults": sum(1 for d in adts if d.defaults),
-        "with_inline_bounds": sum(1 for d in adts if d.bounds),
-        "with_where_clauses": sum(1 for d in adts if d.where),
-        "zero_copy": sum(1 for d in adts if d.copy == "zero"),
-        "deep_copy": sum(1 for d in adts if d.copy == "deep"),
-        "no_attribute": sum(1 for d in adts if d.copy == "none"),
-    }
-    v.coverage["desertype_comparisons"] = sum(1 for x in c.cases if c.iobs.get((x.cid, "dty")) == "same")
+def run_probes(v):
+    """the grammar probes; returns True when a violation was reported"""
     probes = dp.c05_probes()
     res = dp.judge("C05", probes, "", "c05")
     table = []
@@ -48,11 +28,44 @@ def check(v):
                 v.known("%s: %s [probe %s: %s]" % (p.known, known_listed("C05", p.known)["identified_by"], p.pid, r["class"]))
                 continue
             v.violation("probe_" + p.pid, {"kind": "failing-input", "why": why, "program": p.src, "observed": r})
-            return
+            return True
         else:
             if r["class"] == "compiles":
                 # a boundary shape that now compiles is not a violation: the recorded classification is stale
                 v.coverage.setdefault("boundary_shapes_now_accepted", []).append(p.pid)
+    return False
+
+
+def check(v):
+    # the probes first: when a definition of the grammar does not compile, the probe is the failing input
+    # (the generated harness of the campaign would not build either)
+    if run_probes(v):
+        run_proof_stage(v, "C05")
+        v.coverage.update({"evaluations": len(v.coverage.get("grammar_probes", [])), "distinct_nontrivial": len(v.coverage.get("grammar_probes", [])),
+                           "rule": "grammar probes only: a probe inside the grammar failed, the campaign was not evaluated"})
+        return
+    run_codec_property(v, "C05", ["ser", "full", "eps:0", "dty"], oracle_c05,
+                       rule_extra="Derived definitions: named/tuple/unit structs, unit/tuple/struct variants, type / const / defaulted parameters, phantom parameters, inline bounds, where-clauses, zero_copy / deep_copy / no attribute (zero-copy definitions with ZeroCopy-bounded parameters included), repr(C) with and without align.")
+    if v.violations:
+        return
+    c = campaign(v.tier)
+    adts = [c.U.defs[k] for k in c.U.order if not getattr(c.U.defs[k], "liar", False)]
+    v.coverage["definitions_by_shape"] = {
+        "struct:named": sum(1 for d in adts if d.kind == "struct" and d.style == "named"),
+        "struct:tuple": sum(1 for d in adts if d.kind == "struct" and d.style == "tuple"),
+        "struct:unit": sum(1 for d in adts if d.kind == "struct" and d.style == "unit"),
+        "enum": sum(1 for d in adts if d.kind == "enum"),
+        "with_type_params": sum(1 for d in adts if d.tparams),
+        "zero_copy_with_type_params": sum(1 for d in adts if d.tparams and d.copy == "zero"),
+        "with_const_params": sum(1 for d in adts if d.cparams),
+        "with_defaults": sum(1 for d in adts if d.defaults),
+        "with_inline_bounds": sum(1 for d in adts if d.bounds),
+        "with_where_clauses": sum(1 for d in adts if d.where),
+        "zero_copy": sum(1 for d in adts if d.copy == "zero"),
+        "deep_copy": sum(1 for d in adts if d.copy == "deep"),
+        "no_attribute": sum(1 for d in adts if d.copy == "none"),
+    }
+    v.coverage["desertype_comparisons"] = sum(1 for x in c.cases if c.iobs.get((x.cid, "dty")) == "same")
     v.assumptions.append("PARTIAL: 'the derived code compiles' is rustc's verdict on generated programs: observed on every generated definition and probe, not proved; the model states which definitions are accepted (derive_check, wf) and what they compute")
     v.coverage.setdefault("samples", []).append({"theorem": "C05_eps_results_have_the_eps_type: forall base h t buf e rest n, deser_eps_top base h t buf = Ok (e, rest, n) -> eps_ok base buf (dty_of t) e"})
 
